@@ -45,7 +45,14 @@ pub fn run(ctx: &Ctx) -> Option<Report> {
         }
         "C10" => Some(brackets::run(ctx, true)),
         "C11" => Some(brackets::run(ctx, false)),
-        "C14" => Some(c14::run(ctx)),
+        "C14" => {
+            let mut r = c14::run(ctx);
+            // evaluations = executed matrix cells (the module counts worlds there)
+            if let Some(c) = r.extra.get("cells_evaluated").and_then(|x| x.as_u64()) {
+                r.evaluations = r.evaluations.max(c);
+            }
+            Some(r)
+        }
         "C15" => {
             let mut r = c15::run(ctx);
             if r.violations.is_empty() {
